@@ -6,7 +6,7 @@
    repaired by the fix: commits 50fc060 and 1070095). *)
 From Coq Require Import ZArith List Bool Lia.
 From Mistletoe Require Import Base.Sx Base.PyStr Base.PyText Gen.GenTables Gen.GenConfig Model.Tree Model.CoreTokens Model.Block Model.Build
-     Model.MarkdownRenderer Model.Parser Proofs.PlainProse Proofs.Prose Proofs.ProseLines Proofs.ListLaw Proofs.FenceLaw Spec.Fragment Proofs.InertProse Proofs.RefSentence Proofs.LinkSentence Proofs.EmphPhrases Proofs.LinkPhrases Proofs.MixPhrases Proofs.CodeSpan Proofs.HardBreaks Proofs.BreakBlocks Proofs.StrikeSentence Proofs.EscSentence Proofs.ImageSentence Proofs.LeafSpans Proofs.OneInline Proofs.EmphSimple Proofs.NestedEmph Proofs.FragmentP Proofs.FragmentDoc Proofs.FragmentHtml.
+     Model.MarkdownRenderer Model.Parser Proofs.PlainProse Proofs.Prose Proofs.ProseLines Proofs.ListLaw Proofs.FenceLaw Spec.Fragment Proofs.InertProse Proofs.RefSentence Proofs.LinkSentence Proofs.EmphPhrases Proofs.LinkPhrases Proofs.MixPhrases Proofs.CodeSpan Proofs.HardBreaks Proofs.BreakBlocks Proofs.StrikeSentence Proofs.EscSentence Proofs.ImageSentence Proofs.LeafSpans Proofs.OneInline Proofs.EmphSimple Proofs.NestedEmph Proofs.TitleLink Proofs.FragmentP Proofs.FragmentDoc Proofs.FragmentHtml.
 Import ListNotations.
 Local Open Scope Z_scope.
 
@@ -337,7 +337,7 @@ Section RT.
     assert (EF : exists frs, flat_map frags (RawText (c0 :: pre) :: inl_tok x :: EmphSentence.raw_if post) =
                  Fw (c0 :: pre) :: frs ++ match post with [] => [] | _ => [Fw post] end /\
                  Forall (fun f => mem 10 (ftext f) = false) frs /\ concat (map ftext frs) = inl_text x).
-    { destruct x as [w|c|w d|ch k h ps z]; cbn [inl_tok inl_text] in *.
+    { destruct x as [w|c|w d|ch k h ps z|w d tl]; cbn [inl_tok inl_text] in *.
       - exists [F $"~~"; Fw w; F $"~~"]. split; [destruct post; reflexivity|]. split; [|reflexivity].
         unfold mem in N10. rewrite !existsb_app in N10. apply orb_false_iff in N10 as [_ N10]. apply orb_false_iff in N10 as [N10 _].
         repeat constructor; cbn [ftext F Fw]; try reflexivity. exact N10.
@@ -356,7 +356,13 @@ Section RT.
         exists ([F (repeat ch (S k))] ++ flat_map frags (nest_toks h ps z) ++ [F (repeat ch (S k))]). split; [|split].
         + unfold nest_of. destruct K2 as [->| ->]; [change (Z.of_nat 1 =? 2) with false|change (Z.of_nat 2 =? 2) with true]; cbv iota; destruct post; cbn [flat_map frags app repeat EmphSentence.raw_if]; rewrite ?app_nil_r, <- ?app_assoc; reflexivity.
         + apply Forall_app. split; [repeat constructor; exact R10|]. apply Forall_app. split; [exact HF|repeat constructor; exact R10].
-        + rewrite !map_app, !concat_app, E. cbn [map concat ftext F]. rewrite !app_nil_r. reflexivity. }
+        + rewrite !map_app, !concat_app, E. cbn [map concat ftext F]. rewrite !app_nil_r. reflexivity.
+      - cbn [inl_ok] in Hok. apply andb_true_iff in Hok as [_ Hne]. destruct tl as [|t0 tl']; [discriminate|].
+        exists [F $"["; Fw w; F $"]"; F $"("; F d; Fw [32]; F [34]; Fw (t0 :: tl'); F [34]; F $")"]. split; [destruct post; reflexivity|]. split; [|cbn [map concat ftext F Fw app]; rewrite ?app_nil_r; repeat (rewrite <- ?app_assoc; cbn [app]); reflexivity].
+        unfold mem in N10. cbn [app existsb] in N10. rewrite !existsb_app in N10. cbn [existsb] in N10. rewrite !existsb_app in N10. cbn [existsb] in N10.
+        repeat (apply orb_false_iff in N10; destruct N10 as [? N10]).
+        repeat constructor; cbn [ftext F Fw]; try reflexivity; try assumption.
+        unfold mem. cbn [existsb]. rewrite existsb_app in N10. apply orb_false_iff in N10 as [N10 _]. rewrite H6, N10. reflexivity. }
     destruct EF as (frs & -> & Hf & Ec).
     rewrite plain_from_flat.
     - assert (E : concat (map ftext (Fw (c0 :: pre) :: frs ++ match post with [] => [] | _ => [Fw post] end)) = c0 :: one_body pre x post).
